@@ -39,6 +39,13 @@ def accs(rng, k, l, B):
         p = rng.randrange(l); step = 1 << (32 - (p + 1) * B)
         v.append(vlib.w32(rng.randrange(1 << ((p + 1) * B)) * step - off + rng.choice([-1, 0, 1])))
     out.append(('edges', v))
+    # sparse samples: a noiseless trivial sample of a monomial message (0, ..., 0, mu X^j), and one non-zero coefficient per component at
+    # different positions (every digit polynomial is a monomial: the shapes a "fast path" would single out)
+    j = rng.randrange(1, N); mono = [0] * ((k + 1) * N); mono[k * N + j] = rng.choice([2**29, -2**30, rng.randrange(-2**31, 2**31)])
+    out.append(('trivial monomial', mono))
+    sp = [0] * ((k + 1) * N)
+    for q in range(k + 1): sp[q * N + rng.randrange(N)] = rng.randrange(-2**31, 2**31)
+    out.append(('one coefficient per component', sp))
     return out
 
 def run(ctx):
